@@ -84,7 +84,9 @@ Inductive link_op :=
 | LSetCob (k : nat) (cob : Z) (enabled rtr : bool)
 | LAddCb (k : nat) (cb : Z)
 | LTask (k : nat) (on : bool)                   (* start / stop periodic transmission *)
-| LState (k : nat).                             (* observe (received, timestamp, period, data) *)
+| LState (k : nat)                              (* observe (received, timestamp, period, data) *)
+| LRemap (k : nat) (layout : list entry)        (* clear() and add_variable() for a new layout *)
+| LStartNoPeriod (k : nat).                     (* start() without a period argument *)
 
 Definition with_map (w : world) (k : nat) (f : pmap -> world * val) : world * val :=
   match nth_error (w_maps w) k with
@@ -156,6 +158,21 @@ Definition step (w : world) (op : link_op) : world * val :=
   | LState k =>
       with_map w k (fun m =>
         (w, VL [VBool (m_received m); vopt VZ (m_ts m); vopt VZ (m_period m); VB (m_data m)]))
+  | LRemap k layout =>
+      (* clear(); add_variable(...) for every entry: _update_data_size allocates a zeroed frame *)
+      with_map w k (fun m =>
+        (put w k {| m_cob := m_cob m; m_enabled := m_enabled m; m_rtr := m_rtr m; m_layout := layout;
+                    m_data := repeat 0 (Z.to_nat (frame_len layout));
+                    m_ts := m_ts m; m_period := m_period m; m_received := m_received m;
+                    m_task := m_task m; m_cbs := m_cbs m |}, VNone))
+  | LStartNoPeriod k =>
+      (* start(): stop() first; no period known (None or 0) -> ValueError, the map is then not transmitting *)
+      with_map w k (fun m =>
+        let known := match m_period m with Some p => negb (p =? 0) | None => false end in
+        (put w k {| m_cob := m_cob m; m_enabled := m_enabled m; m_rtr := m_rtr m; m_layout := m_layout m;
+                    m_data := m_data m; m_ts := m_ts m; m_period := m_period m; m_received := m_received m;
+                    m_task := known; m_cbs := m_cbs m |},
+         if known then VNone else VErr E_VALUE))
   end.
 
 Fixpoint run_steps (w : world) (ops : list link_op) : world * list val :=
